@@ -83,6 +83,12 @@ pub(crate) fn parse_format_string(format: &str) -> Vec<String> {
     parts
 }
 
+/// Returns the text of an escaped part (starting with an apostrophe) without the surrounding apostrophes
+pub(crate) fn escaped_text(part: &str) -> &str {
+    let text = &part[1..];
+    text.strip_suffix('\'').unwrap_or(text)
+}
+
 pub(crate) struct ParsedPart {
     pub(crate) value: i64,
     pub(crate) unit: ParseUnit,
